@@ -423,7 +423,9 @@ def stepF (s : State) (i : Nat) : Option State :=
     | .fsp ctx st p =>
       some (fsK s st false p (fun s' p' => setF s' i { f with pc := .fsp ctx st p' })
         (fun s' => setF s' i { f with pc := ctx.ret })
-        (fun s' => setF s' i { f with pc := .crashed }))
+        (fun s' => setF (match ctx with
+            | .cl => { s' with lock := false }        -- the exception leaves `with self._lock:`, which releases it
+            | _ => s') i { f with pc := .crashed }))
     | .seCreate =>
       let (s', k) := alloc s (.sync (i + 2) true true 0)
       some (setF s' i { f with pc := .spawn .se k, syncer := k })
